@@ -11,6 +11,7 @@ def run(ctx):
     ctx.run_space(b, "extreme", cpu_limit=120)
     e = build.ensure_explorer("arc_explore", "asan")
     ctx.run_space(e, "integrity", ["seeds=%d" % (1000 if ctx.thorough else 24)], cpu_limit=60)
+    ctx.run_space(e, "sweeps", cpu_limit=60)
     try:
         from props import cli_c08
         cli_c08.run(ctx)
@@ -19,7 +20,7 @@ def run(ctx):
     ctx.assumptions += ["every other check of this framework also runs the library under the same sanitizers; extraction walks pass explicit output names (the library by itself does not confine header paths, see C10)"]
     return ctx.finish(
         rule="'mutate': for every header byte of every member of 7 generated archives (levels 0-3, all methods, links, MacBinary, SFX stub): substitution by 15 values (thorough: all 255), with and without a repaired checksum, the byte deleted, the byte duplicated; truncation at every header offset; every pair of length fields (total, name, compressed, original, first extended size) set to 11 boundary values; "
-             "each byte string walked with four API patterns (list; read all in 7-byte pieces; check all; extract all) over three stream kinds; plus every cut of every archive x 3 walks x 5 stream kinds, the extreme-length space and the header perturbation space of C12. Oracle: no sanitizer report, no signal, every call returns. non-trivial = distinct (archive, member, position/field) classes",
+             "each byte string walked with four API patterns (list; read all in 7-byte pieces; check all; extract all) over three stream kinds; plus every cut of every archive x 3 walks x 5 stream kinds, the extreme-length space, the header perturbation space of C12 and the sweep space of C05 (OS types, sizes, long names, level-0/1 extended areas of every length 1..26 x 7 first bytes x 6 content variants). Oracle: no sanitizer report, no signal, every call returns. non-trivial = distinct (archive, member, position/field) classes",
         replay_fn=lambda rep: (__import__('vlib.cliprop', fromlist=['x']).replay_case(rep) if rep.get('kind') == 'cli' else runner.replay_explorer(rep, quiet=True)))
 
 
